@@ -62,7 +62,7 @@ def c03(chk):
         converge_model(chk, "C03-liveness-3nodes",
                        dict(base, Node={"a", "b", "c"}, Key={"k1"}, Val={"x"}, MaxVer=2, Writers={"a", "c"},
                             Budgets={2, 99}), timeout=2400)
-    sched = {"nodes": ["a", "b", "c", "d"], "initKnown": True, "walks": 60 if quick else 1500,
+    sched = {"nodes": ["a", "b", "c", "d"], "initKnown": True, "walks": 250 if quick else 4000,
              "depth": 60, "keys": ["k1", "k2", "k3", "a-much-longer-key-name-to-vary-sizes"],
              "vals": ["", "x", "y", "a-longer-value-to-vary-entry-sizes", "z" * 300],
              "writers": ["a", "b", "c", "d"], "masked": True, "crashers": [], "closure": True}
